@@ -413,13 +413,28 @@ def changesetLine (st : CState) (line : String) : CState × List String :=
             (st.resetExp, o1 ++ o2 ++ o3)
           | _ => (st, [])
 
+
+/-- `regrouped <res>`: the harness saw a `+=` whose right operand was itself the result of a `+=`. The payloads
+    (sequences under concatenation) cannot show such a re-grouping, the property can: "the combination of its amounts
+    in arrival order" is the left fold ((x + d1) + d2) + …, one amount at a time. -/
+def changesetLineG (st : CState) (line : String) : CState × List String :=
+  let (l, r) := splitArrow line
+  match toks r with
+  | "regrouped" :: rest =>
+    let (st', outs) := changesetLine st (l ++ " => " ++ " ".intercalate rest)
+    if st.monDead then (st', outs)
+    else ({ st' with monDead := true, mons := st'.mons + (if st'.monDead then 0 else 1) },
+          outs.filter (fun o => !o.startsWith "MON ") ++
+          [s!"MON C16 case={st'.caseId} line={st'.lineNo} amounts-combined-out-of-arrival-grouping (an already combined amount was added to another one) op=[{l}] impl=[{r}]"])
+  | _ => changesetLine st line
+
 partial def changesetLoop (h : IO.FS.Stream) (st : CState) : IO CState := do
   let line ← h.getLine
   if line.isEmpty then return st
   let line := line.trimAscii.toString
   if line.isEmpty || line.startsWith "#" then changesetLoop h st
   else
-    let (st', outs) := changesetLine st line
+    let (st', outs) := changesetLineG st line
     for o in outs do IO.println o
     changesetLoop h st'
 
